@@ -39,6 +39,7 @@ import (
 )
 
 const settleBound = 2 * time.Second
+const pongWait = 60 * time.Second  // crossbar's read deadline: a peer that answers no ping is given up after this
 const writeWait = 10 * time.Second // crossbar's write deadline: a writer blocked on a stalled reader returns after this
 
 // Conn is one connection attempt of a history.
@@ -78,7 +79,7 @@ type Case struct {
 
 var refusalCoq = map[string]string{"nocode": "NoCode", "badcode": "BadCode", "reused": "BadCode", "claims": "MissingClaims",
 	"early": "TooEarly", "topic": "Invalid", "expired": "Invalid", "aud": "Invalid", "denied": "DeniedBooking", "scope": "NoScopes", "notfound": "NotFound"}
-var endCoq = map[string]string{"clientclose": "ClientClose", "netloss": "NetLoss", "expiry": "Expiry", "cancel": "Cancel", "evict": "Evict", "evictdrain": "Evict"}
+var endCoq = map[string]string{"clientclose": "ClientClose", "netloss": "NetLoss", "expiry": "Expiry", "cancel": "Cancel", "evict": "Evict", "evictdrain": "Evict", "silent": "NetLoss"}
 
 func (c Case) coq() string {
 	var evs []string
@@ -274,6 +275,7 @@ func runHistory(r *rig, tag string, c *Case) {
 	defer debug.SetGCPercent(old)
 
 	conns := make([]*live, len(c.Conns))
+	histStart := time.Now()
 	clientFds := 0
 	now := time.Now().Unix()
 	lastExp := int64(0)
@@ -349,8 +351,8 @@ func runHistory(r *rig, tag string, c *Case) {
 	var rmu sync.Mutex
 	closedSeen := map[int]bool{}
 	for i, l := range conns {
-		if l == nil || c.Conns[i].End == "evict" || c.Conns[i].End == "evictdrain" || !c.Conns[i].Accepted {
-			continue
+		if l == nil || c.Conns[i].End == "evict" || c.Conns[i].End == "evictdrain" || c.Conns[i].End == "silent" || !c.Conns[i].Accepted {
+			continue // "silent": the peer froze the moment it had joined - it never reads, never answers a ping
 		}
 		go readUntilClosed(i, l.ws, &rmu, closedSeen)
 	}
@@ -433,6 +435,16 @@ func runHistory(r *rig, tag string, c *Case) {
 		}
 	}
 	bound := time.Now().Add(settleBound)
+	for _, k := range c.Conns {
+		if k.End == "silent" && k.Accepted {
+			// network loss without FIN/RST: the relay notices when the read deadline passes
+			if b := histStart.Add(pongWait + settleBound); b.After(bound) {
+				bound = b
+			}
+			time.Sleep(time.Until(histStart.Add(pongWait - 2*time.Second)))
+			break
+		}
+	}
 	if !floodStart.IsZero() {
 		// an evicted reader's writer is blocked inside a write: it takes its next step when the
 		// write deadline passes
@@ -510,7 +522,7 @@ func runHistory(r *rig, tag string, c *Case) {
 			}
 			continue
 		}
-		if k.Accepted {
+		if k.Accepted && k.End != "silent" {
 			// the client's reader may still be working through what was in flight (an evicted
 			// reader that catches up has tens of MB to drain before it sees the end of the stream)
 			for w := 0; w < 200; w++ {
@@ -832,6 +844,11 @@ func gen(rng *lib.Rng, tier string, a lib.Args) []Case {
 			ev = "sd"
 		}
 		cs = append(cs, genHistory(rng.Fork(), 40, ev))
+	}
+	if tier == "thorough" {
+		// peers that go silent without closing: their resources come back after pongWait
+		cs = append(cs, Case{Kind: "silent-peers", Conns: []Conn{{Outcome: "join", Topic: 1, HasBid: true}, {Outcome: "join", Topic: 1, HasBid: true, End: "silent"},
+			{Outcome: "join", Topic: 2, HasBid: false, End: "silent"}, {Outcome: "join", Topic: 2, HasBid: true, End: "clientclose"}}, Order: []int{3, 1, 2}})
 	}
 	// instant hang-ups while the hub is busy
 	cs = append(cs, genHangup(rng.Fork(), a.Pick(200, 300)))
